@@ -28,7 +28,7 @@ CHECKS = {
   "(all slice/index expressions incl. f[0]) and its line evaluation goes through matchTags' contract; its block/line structure is compared with go/build/constraint by a bounded stand-in. ShouldBuild evaluates options only for a line whose first field is exactly +build; ScanDir scans a directory entry only if it is a regular file whose name does not start with _, ends in .go and passes MatchFile's rule.",
   "assumed: extern contracts for strings.Index/Split/Fields/HasPrefix, bytes.IndexByte/TrimSpace/HasPrefix, unicode.IsLetter/IsDigit (uninterpreted), UTF-8 decoding (uninterpreted runeAt/runeW); "
   "nil tag maps are outside the contracts (requires tags != nil); MatchFile's specification is close to the code (spec-near) except for the OS-selection rule; "
-  "bounded: ShouldBuild vs go/build/constraint over blocks of up to 4 (quick) / 6 (thorough) lines from a 13-line vocabulary (incl. a comment that merely starts with +build, a term with a trailing comma, a whitespace-only line and CRLF lines) and 4 tag sets",
+  "bounded: ShouldBuild vs go/build/constraint over blocks of up to 4 (quick) / 6 (thorough) lines from a 15-line vocabulary (incl. a comment that merely starts with +build, a term with a trailing comma, a whitespace-only line, CRLF lines, a +build line without options and one with a detached !) and 4 tag sets",
   "contract-based deductive verification (VCs over go/ssa incl. a recursive spec function and a rune-iteration invariant, z3/cvc5) plus a labelled bounded stand-in for ShouldBuild's block structure"),
  "C06": ("5 C06",
   "Per-call contracts over a ghost lock state fdMode[descriptor]: filelock.lock returns nil only after a successful flock with the requested type (EINTR retried, failures leave the state unchanged); "
@@ -162,23 +162,23 @@ CHECKS = {
 
 # Additions made after the blind seeding round (appended to the claim texts above).
 EXTRA = {
- "C01": " cmdExec returns normally only if the outcome of the child matches the polarity: a failed start of a background command or a failed foreground run reaches the caller unless negated, and a negated foreground exec must have failed. RunMain's wrapper exits with exactly the status the command function returned; a [go1.N] condition holds exactly when slices.Contains finds it among the toolchain's release tags.",
- "C02": " env NAME=VALUE (cmdEnv): the name is the text before the first '=', the value the text after it, stored as given (no second expansion).",
- "C04": " RunT's per-script closure is handed to t.Run under the very name that was checked for distinctness; cmdExec's start/run errors reach the caller (not swallowed); the wait-for-one-background-command path (waitBackgroundOne) is covered by a BOUNDED stand-in only (pointers into slice elements are outside the modelled subset).",
- "C05": " copyFile returns nil only when the output file exists under its name.",
+ "C01": " cmdExec returns normally only if the outcome of the child matches the polarity: a failed start of a background command or a failed foreground run reaches the caller unless negated, and a negated foreground exec must have failed. RunMain's wrapper exits with exactly the status the command function returned; a [go1.N] condition holds exactly when slices.Contains finds it among the toolchain's release tags. A command name found in the built-in table always gets the built-in (Params.Cmds cannot shadow it); the verdict of `wait name` (waitBackgroundOne, outside the modelled subset) is checked by a BOUNDED stand-in (true/false commands, both polarities, with neighbours).",
+ "C02": " env NAME=VALUE (cmdEnv): the name is the text before the first '=', the value the text after it, stored as given (no second expansion). run hands every script line to runLine whole (from the start of the line to the byte before its newline or the end of the script) and runLine hands it to parse unchanged.",
+ "C04": " RunT's per-script closure is handed to t.Run under the very name that was checked for distinctness; cmdExec's start/run errors reach the caller (not swallowed); the wait-for-one-background-command path (waitBackgroundOne) is covered by a BOUNDED stand-in only (pointers into slice elements are outside the modelled subset). On entering the script loop RunT's clean-up counter equals the number of scripts.",
+ "C05": " copyFile returns nil only when the output file exists under its name. putIndexEntry returns nil only after the entry file was opened and the entry text written; Put, PutNoVerify and PutBytes hand their arguments to put unchanged (PutBytes stores exactly the given bytes).",
  "C06": " Mutex.Lock opens and locks the file at mu.Path itself.",
  "C07": " openFile with O_TRUNC returns a nil error for a regular file only after truncating it to length 0 (a failed truncation is ignored only for non-regular files).",
  "C08": " testscript's cmp/cmpenv hand Diff exactly the two texts that were compared (call-site obligation in doCmdCmp).",
- "C09": " When Do becomes a runner itself, all w.running runners have been started (otherwise waiting == running is never reached).",
+ "C09": " When Do becomes a runner itself, all w.running runners have been started (otherwise waiting == running is never reached). The number of runners is the caller's n (w.running == old(n) where Do becomes a runner).",
  "C11": " copyFile returns nil only when the output file exists; put itself never removes or truncates a file.",
  "C12": " put itself never removes or truncates a file; copyFile never reopens for writing an existing output whose size and hash already match, passes O_TRUNC only when the existing file is longer than the new content, and truncates only to zero. The lookup side (GetFile's size gate, GetBytes' checksum gate, get's record layout) is part of this check's set.",
- "C13": " GetBytes reads the data file only after its mtime was refreshed (younger than one hour before the call, when no file operation fails), like GetFile. A due Trim makes exactly 256 trimSubdir passes, the i-th on Join(dir, Sprintf(\"%02x\", i)).",
+ "C13": " GetBytes reads the data file only after its mtime was refreshed (younger than one hour before the call, when no file operation fails), like GetFile. A due Trim makes exactly 256 trimSubdir passes, the i-th on Join(dir, Sprintf(\"%02x\", i)). trimSubdir asks for the whole directory listing (Readdirnames with n <= 0), and the 256 passes happen whenever the last-trim record is not recent, whatever else Trim returns.",
  "C14": " What txtar-c hands to NeedsQuote is the file's bytes as read, changed at most by one added final newline. isMarker, findFileMarker and fixNL (through which NeedsQuote's contract is discharged) are part of this check's set.",
- "C15": " cmd/txtar-x's main extracts the freshly parsed archive with txtar.Write into the directory given by -C and ends with exit status 1 exactly when Write failed; cmd/txtar-c's main walks from the cleaned directory argument, so entry names are relative to it. For the round-trip clause, the quoting functions (NeedsQuote, Quote, lemma quotedSafe), the marker scanner and Parse, with both txtar stand-ins (BOUNDED), are part of this check's set.",
+ "C15": " cmd/txtar-x's main extracts the freshly parsed archive with txtar.Write into the directory given by -C and ends with exit status 1 exactly when Write failed; cmd/txtar-c's main walks from the cleaned directory argument, so entry names are relative to it. For the round-trip clause, the quoting functions (NeedsQuote, Quote, lemma quotedSafe), the marker scanner and Parse, with both txtar stand-ins (BOUNDED), are part of this check's set. Write returns its outside-parent error only for a name that is absolute or climbs out (in-bounds names such as ..data are not refused).",
  "C16": " run (which must hold applyScriptUpdates on the defer stack before any line runs or fails) is part of this check's set.",
- "C18": " scanFiles (the caller that feeds files to ReadImports) is in this check's set: it reads imports without syntax-error reporting and only from the opened file.",
+ "C18": " scanFiles (the caller that feeds files to ReadImports) is in this check's set: it reads imports without syntax-error reporting and only from the opened file. readKeyword: without error the byte after the keyword is peeked and is not an identifier byte; the stand-in also checks every generated file with CRLF line ends; ScanFiles hands its arguments to scanFiles unchanged.",
  "C19": " scanFiles evaluates ShouldBuild on exactly the bytes it read and with the caller's tag map (unless the files were named explicitly).",
- "C20": " par.Cache's Do and Get (C10's rely-guarantee contracts) are part of this check's set; isPseudoVersion is compared with golang.org/x/mod/module.IsPseudoVersion by a BOUNDED stand-in over composed version strings (no build metadata other than +incompatible).",
+ "C20": " par.Cache's Do and Get (C10's rely-guarantee contracts) are part of this check's set; isPseudoVersion is compared with golang.org/x/mod/module.IsPseudoVersion by a BOUNDED stand-in over composed version strings (no build metadata other than +incompatible). readArchive looks an archive up under <dir>/<escaped path with / as _>_<escaped version> (.txtar and .txt appended for the file forms), uses that base name as cache key, and its cache closure always returns a typed value.",
 }
 
 NOT_YET = "not yet brought under contract in this round of work (see DESIGN.md section 8 build order); no check is registered, so nothing is claimed"
@@ -226,7 +226,7 @@ def main():
         }],
         "checks": checks,
         "not_applicable": na,
-        "notes": "See DESIGN.md. Evidence files are rewritten by every run. known_findings.txt lists fixed: entries for defects repaired by fix: commits in /repo.",
+        "notes": "See DESIGN.md (section 10 is the as-built account; 10.7 the false-alarm corpus). Package-level functions of strings/bytes/strconv/unicode/utf8/slices/maps/cmp/math/path/sort/errors without an explicit contract are assumed pure with an unconstrained result and listed per use in each evidence file's trusted_base. Evidence files are rewritten by every run. known_findings.txt lists fixed: entries for defects repaired by fix: commits in /repo.",
     }
     json.dump(m, open(os.path.join(HERE, "MANIFEST.json"), "w"), indent=1)
     print("wrote MANIFEST.json with", len(checks), "checks,", len(na), "not_applicable")
